@@ -15,11 +15,28 @@ import (
 	"seehuhn.de/go/pdf"
 )
 
-func c15Scan(parts ...[]byte) ([]Operator, error) {
+// c15Chunked delivers at most n bytes per Read (n == 0: everything at once).
+type c15Chunked struct {
+	r io.Reader
+	n int
+}
+
+func (c *c15Chunked) Read(p []byte) (int, error) {
+	if c.n > 0 && len(p) > c.n {
+		p = p[:c.n]
+	}
+	return c.r.Read(p)
+}
+
+func c15Scan(parts ...[]byte) ([]Operator, error) { return c15ScanChunked(0, parts...) }
+
+func c15ScanChunked(chunk int, parts ...[]byte) ([]Operator, error) {
 	var all []Operator
 	for _, p := range parts {
 		p := p
-		st := NewScanner(func() (io.ReadCloser, error) { return io.NopCloser(bytes.NewReader(p)), nil })
+		st := NewScanner(func() (io.ReadCloser, error) {
+			return io.NopCloser(&c15Chunked{r: bytes.NewReader(p), n: chunk}), nil
+		})
 		it := st.NewIter()
 		for name, args := range it.All() {
 			cp := make([]pdf.Object, len(args))
@@ -175,8 +192,10 @@ func TestB2C15Operators(t *testing.T) {
 		if !ok {
 			continue
 		}
-		for variant, input := range [][][]byte{{whole.Bytes()}, parts} {
-			got, err := c15Scan(input...)
+		for variant, input := range [][][]byte{{whole.Bytes()}, parts, {whole.Bytes()}, {whole.Bytes()}} {
+			// variants 2 and 3: the source delivers 1 and 3 bytes per Read (short reads, as
+			// decompressors produce them)
+			got, err := c15ScanChunked([]int{0, 0, 1, 3}[variant], input...)
 			key := "operators"
 			if run >= runs {
 				key = "inline-image-EI-in-data"
